@@ -817,7 +817,14 @@ where
         freq: &FrequencySketch,
         counters: &mut EvictionCounters,
     ) {
-        entry.set_dirty(false);
+        // The dirty flag (like the policy weight) lives in the `EntryInfo` shared by all
+        // the versions of this entry. Clear it only when this op is for the version the
+        // map holds now: a newer update of the key may still be waiting in the queue,
+        // and until it is applied the weight stored in the `EntryInfo` is not the
+        // weight this cache has counted for the entry.
+        if self.holds_value_entry(&kh.key, &entry) {
+            entry.set_dirty(false);
+        }
 
         if entry.is_admitted() {
             // The entry has been already admitted, so treat this as an update.
@@ -906,6 +913,15 @@ where
         self.cache
             .get(key)
             .map(|e| e.has_entry_info(entry.entry_info()))
+            .unwrap_or(false)
+    }
+
+    /// Returns `true` if the cache (hash map) holds this very value entry for the key,
+    /// i.e. no newer update of the key has been made since the entry was created.
+    fn holds_value_entry(&self, key: &Arc<K>, entry: &TrioArc<ValueEntry<K, V>>) -> bool {
+        self.cache
+            .get(key)
+            .map(|e| TrioArc::ptr_eq(e.value(), entry))
             .unwrap_or(false)
     }
 
